@@ -8,7 +8,7 @@ import Std.Data.HashSet
 
     pool pkg asm|reasm|reasm0     (reasm0 = reassembly as written upstream, with the FIXME panic)
     pool threads n
-    pool prog <tid> <item>…       item = <pair>:<dir>:<syn|fin|rst> | flush
+    pool prog <tid> <item>…       item = <pair>:<dir>:<syn|fin|rst|late<ts>> | flush | flushold:<T>:<c>
     pool sched t0 t1 …            entries naming a thread that cannot move are skipped; afterwards
                                   round-robin over the threads until nobody can move
     pool explore <maxstates>      (development aid) exhaustive exploration, checks the executable invariants
@@ -23,15 +23,26 @@ structure DSt where
   n : Nat := 0
   progs : Array (List Op) := #[]
 
+def parseKind (k : String) : Option Kind :=
+  if k == "syn" then some .syn else if k == "fin" then some .fin else if k == "rst" then some .rst
+  else if k.startsWith "late" then
+    match (k.drop 4).toNat? with
+    | some ts => if ts ≤ 9 then some (.late ts) else none
+    | none => none
+  else none
+
 def parseItem (w : String) : Option Op :=
   if w == "flush" then some .flush else
   match w.splitOn ":" with
+  | ["flushold", a, b] =>
+    match a.toNat?, b.toNat? with
+    | some T, some c => if T ≤ 9 ∧ c ≤ 9 then some (.flushold T c) else none
+    | _, _ => none
   | [p, d, k] =>
     match p.toNat?, d.toNat? with
     | some p, some d =>
-      if d > 1 then none else
-      let kind : Option Kind := if k == "syn" then some .syn else if k == "fin" then some .fin else if k == "rst" then some .rst else none
-      kind.map (fun kd => Op.pkt ⟨p, d == 1⟩ kd)
+      if d > 1 ∨ p > 9 then none else
+      (parseKind k).map (fun kd => Op.pkt ⟨p, d == 1⟩ kd)
     | _, _ => none
   | _ => none
 
@@ -64,6 +75,39 @@ def runAll {σ : Type} (step : σ → Tid → Option σ) (n : Nat) (s : σ) (sch
       | none => pure ()
   return s
 
+/-- reassembly: `t`'s next step is the un-nested remove of FlushWithOptions and it will delete a map entry
+    (the known defect `pool:reasm:flush-remove-foreign`). -/
+def foreignRemove (s : Reasm.State) (t : Tid) : Bool :=
+  match (s.thr t).pc with
+  | .rm2 c => (s.conns.get (s.obj c).key).isSome
+  | _ => false
+
+/-- As `runAll` for reassembly; also returns the length of the log just BEFORE the first foreign remove.
+    From there on the free list holds a live object and what follows depends on byte-level state (a flusher
+    writes `half.nextSeq` into an object that was recycled while it held the mutex) which the model
+    abstracts: the compared event sequence is cut at that point on both sides. -/
+def runReasm (fixed : Bool) (n : Nat) (s : Reasm.State) (sched : List Nat) : Reasm.State × Option Nat := Id.run do
+  let mut s := s
+  let mut cut : Option Nat := none
+  for t in sched do
+    if t < n then
+      match Reasm.step fixed s t with
+      | some s' =>
+        if cut.isNone && foreignRemove s t then cut := some s.log.length
+        s := s'
+      | none => pure ()
+  let mut fuel := 20000
+  let mut moved := true
+  while moved && fuel > 0 do
+    moved := false
+    for t in [0:n] do
+      match Reasm.step fixed s t with
+      | some s' =>
+        if cut.isNone && foreignRemove s t then cut := some s.log.length
+        s := s'; moved := true; fuel := fuel - 1
+      | none => pure ()
+  return (s, cut)
+
 def progsFn (d : DSt) : Tid → List Op := fun t => d.progs.getD t []
 
 def hasRst (d : DSt) : Bool := d.progs.any (fun p => p.any (fun o => match o with | .pkt _ .rst => true | _ => false))
@@ -80,7 +124,11 @@ def doSched (d : DSt) (sched : List Nat) : String :=
     joinSp (["ok"] ++ evs ++ ["|", "map=" ++ ms, "|"] ++ sts)
   | .reasm fixed =>
     if hasRst d then "bad-op" else
-    let s := runAll (Reasm.step fixed) d.n (Reasm.init (progsFn d)) sched
+    let (s, cut) := runReasm fixed d.n (Reasm.init (progsFn d)) sched
+    match cut with
+    | some k =>
+      joinSp (["ok"] ++ ((s.log.reverse.take k).filterMap showEv) ++ ["FRM", "|", "map=?", "|", "cut"])
+    | none =>
     let evs := (s.log.reverse.filterMap showEv)
     let sts := (List.range d.n).map (fun t =>
       let th := s.thr t
@@ -106,7 +154,7 @@ def ncomp (s : State) (sid : SId) : Nat := (s.log.filter (fun e => match e with 
 
 def key (n : Nat) (s : State) : String :=
   let th := (List.range n).map (fun t => let x := s.thr t; s!"{x.prog.length},{x.pos},{repr x.pc},{x.snap}")
-  let ob := (List.range s.nextC).map (fun c => let o := s.obj c; s!"{o.key.p}{o.key.d},{o.stream},{o.closed},{o.started},{o.q},{o.mu}")
+  let ob := (List.range s.nextC).map (fun c => let o := s.obj c; s!"{o.key.p}{o.key.d},{o.stream},{o.closed},{o.started},{o.q},{o.lq},{o.seen},{o.mu}")
   s!"{th}|{s.conns.map (fun (k, c) => (k.p, k.d, c))}|{s.free}|{ob}|{s.nextS}|{(List.range s.nextS).map (fun i => ((s.skey i).p, (s.skey i).d, s.kept i, ncomp s i))}"
 
 def headKey (th : Thread) : Option Key := match th.prog with | .pkt k _ :: _ => some k | _ => none
